@@ -233,6 +233,28 @@ func checkC01(c *Ctx) {
 			}
 			okPhi = nAlloc == 1 && nEmit == 1
 		}
+		// or the result of a helper that returns either the hook's answer or the message it
+		// was given
+		if call, idx := eng.CallAndIndex(postHook); call != nil && !okPhi {
+			if rets, g := eng.ReturnedValues(call, idx); g != nil && len(rets) > 0 {
+				nPrm, nEmit, other := 0, 0, 0
+				for _, rv := range rets {
+					switch x := rv.(type) {
+					case *ssa.Parameter:
+						nPrm++
+					case *ssa.Call:
+						if o := eng.CalleeObj(x.Common()); o != nil && strings.Contains(eng.CalleeName(x.Common()), "EventBroker") && strings.HasSuffix(o.Name(), "Emit") {
+							nEmit++
+						} else {
+							other++
+						}
+					default:
+						other++
+					}
+				}
+				okPhi = nPrm >= 1 && nEmit >= 1 && other == 0
+			}
+		}
 		r.Check(okPhi, "C01/ONCE/fanout", "post-hook-message", p.Pos(deliver.Pos()), "destinations are read from φ(policy-filtered message, BeforeMessageStored answer)", "the destination list is not read from the post-hook message (policy branch / extension branch)")
 	}
 
@@ -288,14 +310,21 @@ func (c *Ctx) c01MailboxesAs(rule string, deliver *ssa.Function, fMailboxes, fRe
 		r.Fatal("UNRESOLVED anchor=Deliver recipients parameter")
 		return
 	}
-	sts := eng.StoresToField([]*ssa.Function{deliver}, fMailboxes)
+	var dfnsM []*ssa.Function
+	for fn := range p.SyncReach(deliver) {
+		if eng.FuncPkgPath(fn) == eng.FuncPkgPath(deliver) {
+			dfnsM = append(dfnsM, fn)
+		}
+	}
+	sortFuncs(dfnsM)
+	sts := eng.StoresToField(dfnsM, fMailboxes)
 	// the store that is not part of the composite literal initialisation dominated by the
 	// extResult == nil edge
 	n := 0
 	for _, s := range sts {
 		// under `extResult == nil`?
 		under := false
-		for _, b := range deliver.Blocks {
+		for _, b := range s.Fn.Blocks {
 			for k := 0; k < len(b.Succs) && len(b.Succs) == 2; k++ {
 				rel, ok := eng.EdgeRel(b, k)
 				if !ok || rel.Op != token.EQL || !eng.IsNilConst(rel.Y) {
@@ -420,7 +449,7 @@ func (c *Ctx) c01MailboxesAs(rule string, deliver *ssa.Function, fMailboxes, fRe
 										continue
 									}
 									ia2, ok := ru.X.(*ssa.IndexAddr)
-									if !ok || res(ia2.X, e) != ssa.Value(recipients) {
+									if !ok || p.Actual(res(ia2.X, e)) != ssa.Value(recipients) {
 										probs = append(probs, "appended mailbox does not belong to an element of the recipients parameter")
 										continue
 									}
